@@ -49,14 +49,32 @@ def protected(f, node):
     return None
 
 
+def subarray_role_in_text(ctx, expr, f):
+    for n in ast.walk(expr):
+        if isinstance(n, ast.Attribute):
+            r = subarray_role(ctx, n, f)
+            if r in ('VALUESDIR', 'INDICESDIR'):
+                return r
+    return None
+
+
 def handler_recovers(ctx, f, tr, committer):
     """Handler (or finally) commits both sub-arrays, resizes both files, re-raises."""
     for h in tr.handlers:
         if not is_catch_all(h):
             continue
+        body = ast.Module(body=h.body, type_ignores=[])
+        # the values file is cut back to a whole number of *items*: a byte count built from a row count needs the
+        # number of items per row (atom) as a factor
+        for e in ctx.E.primitives(f):
+            if e.kind == 'RESIZE' and any(x is e.node for x in ast.walk(body)) and e.node.args:
+                t = norm(e.node.args[-1])
+                if 'itemsize' in t and subarray_role_in_text(ctx, e.node.args[-1], f) == 'VALUESDIR' and \
+                        not any(k in t for k in ('atom', 'shape[1:]', '.size', '_size', 'nbytes', 'product(', 'prod(')):
+                    return False, (f'the values file is cut to `{t}`: a row count times the item size, without the number '
+                                   f'of items per row (atom) — for non-scalar atoms original data are cut off')
         if not always_raises(h.body):
             return False, 'handler does not re-raise'
-        body = ast.Module(body=h.body, type_ignores=[])
         commits = set()
         for n, cal in ctx.E.callees(f):
             if cal is committer and any(x is n for x in ast.walk(body)) and isinstance(n.func, ast.Attribute):
@@ -93,7 +111,8 @@ def run(ctx):
                                'longer than their descriptors; RaggedArray(path) then raises ValueError for ever')
             else:
                 ok, why = handler_recovers(ctx, f, tr, committer)
-                ctx.decide(ok, 'R-RECOVER', 'D1', f, node, construct, inst, detail=why)
+                # a handler that is there but wrong is a different construct than "no handler at all" (known finding)
+                ctx.decide(ok, 'R-RECOVER', 'D1', f, node, construct + '::handler', inst, detail=why)
     ctx.floor('C10 callers of the ragged append step', n, 1)
     # D1: second step of the two-file write
     vcalls, icalls = roles['VALUESDIR'], roles['INDICESDIR']
